@@ -11,7 +11,8 @@
 (* structure (modified Gram-Schmidt against the previous basis vectors, one new      *)
 (* vector per step, update x = x0 + [P] V y at the end of a cycle) but leaves the    *)
 (* basis vectors unnormalised and obtains y from the least squares condition on the  *)
-(* orthogonal basis; the iterate does not depend on the scaling of the basis.        *)
+(* orthogonal basis; the iterate does not depend on the scaling of the basis (each   *)
+(* basis vector is rescaled to a primitive integer vector instead of unit length).   *)
 EXTENDS KrylovRef
 
 \* ------------------------------------------------------------------------ CG
@@ -106,14 +107,14 @@ BsStepQ(A, P, side, st) ==
 \* iterate as right-preconditioned GMRES when P is a fixed matrix.
 RECURSIVE MGSBasis(_, _, _)
 MGSBasis(B, g, m) ==          \* u[1..m]; stops growing when a new vector vanishes (lucky breakdown)
-    IF m = 1 THEN <<g>>
+    IF m = 1 THEN <<VPrim(g)>>
     ELSE LET U == MGSBasis(B, g, m - 1)
          IN  IF Len(U) < m - 1 \/ IsZeroVec(U[Len(U)]) THEN U
              ELSE LET w0 == MatVec(B, U[m - 1])
                       \* modified Gram-Schmidt: project the running vector, one basis vector after another
                       F[k \in 0..(m - 1)] == IF k = 0 THEN w0
                                              ELSE VSub(F[k - 1], VScale(QDiv(Dot(F[k - 1], U[k]), Dot(U[k], U[k])), U[k]))
-                  IN  Append(U, F[m - 1])
+                  IN  Append(U, VPrim(F[m - 1]))
 GmresCycleProg(A, P, f, x, m, side) ==
     LET r0 == Residual(A, f, x)
         g  == IF side = "left" THEN MatVec(P, r0) ELSE r0
